@@ -510,7 +510,12 @@ impl InflightRequests {
 
     /// Removes timeedout requests if necessary to save memory
     fn cleanup(&mut self) {
-        if self.requests.len() < self.requests.capacity() {
+        #[cfg(mainline_verif)]
+        let full = crate::verif::force_compaction();
+        #[cfg(not(mainline_verif))]
+        let full = false;
+
+        if !full && self.requests.len() < self.requests.capacity() {
             return;
         }
 
